@@ -66,6 +66,10 @@ ODD_EXCEPTIONS = [
 ]
 
 
+class FalsyContext(dict):
+    """an empty dict subclass: falsy, yet the object the caller expects resolvers to receive"""
+
+
 class PlainObj:
     def __repr__(self):  # no memory address: engine messages embed reprs and responses are compared
         return "<PlainObj>"
@@ -207,7 +211,8 @@ class Harness:
         self.schema = schema
         self.plan = plan or {}
         self.name = schema_name or fresh_schema_name()
-        self.ctx_token = {"token": self.name}
+        # plan["falsy_context"]: the caller's context object is an *empty* mapping (resolvers fill it / read attributes of it)
+        self.ctx_token = FalsyContext() if self.plan.get("falsy_context") else {"token": self.name}
         self.rs = RequestState(tree, self.ctx_token)
         self.gate = gate  # async callable(label) or None
         self.sdl = None
@@ -509,7 +514,12 @@ class CountingDirective:
         return r
 
     async def on_pre_output_coercion(self, directive_args, next_directive, value, ctx, info):
-        self.H.state_of(ctx).hooks.append((self.name, "on_pre_output_coercion"))
+        rs = self.H.state_of(ctx)
+        rs.hooks.append((self.name, "on_pre_output_coercion"))
+        f = rs.tree.faults.get(("$outhook",) + tuple(info.path.as_list())) if (rs.tree is not None and rs.tree.faults) else None
+        if f is not None:
+            # a directive on the value's type / enum value refusing the value with a library error of its own
+            raise UserError(f.payload["message"], f.payload["extensions"])
         return await next_directive(value, ctx, info)
 
     def denies(self, ctx):
